@@ -298,6 +298,101 @@ class Session:
                  % (name, ob.status, ob.paths, ob.queries, ob.sat, ob.unsat, ob.solver_s, ob.wall_s, ob.discharged, ob.obligations))
         return ob, ex
 
+    def explore_batch(self, tasks, workers=None):
+        """Independent explorations run in forked worker processes (the sandbox has 16 cores).  tasks: [(name, desc, body, bounds)];
+        bodies must not talk to the native driver.  Returns [(obligation record, [(label, None, info)])] in task order; every record,
+        counter and used-function entry is merged into this session exactly as if the explorations had run here."""
+        import pickle
+        import tempfile
+        if workers is None:
+            workers = int(os.environ.get('VERIF_WORKERS', '0') or 0) or min(12, os.cpu_count() or 1)
+        if workers <= 1 or len(tasks) < 4:
+            out = []
+            for name, desc, body, bounds in tasks:
+                ob, ex = self.explore(name, desc, body, bounds=bounds)
+                out.append((ob, list(ex.violations)))
+            return out
+        self._load()
+        workers = min(workers, len(tasks))
+        sys.stdout.flush()
+        sys.stderr.flush()
+        tmpdir = tempfile.mkdtemp(prefix='mirsym-batch-')
+        pids = []
+        for w in range(workers):
+            pid = os.fork()
+            if pid == 0:
+                code = 0
+                try:
+                    self._driver = None             # the driver pipe belongs to the parent
+                    res = []
+                    for idx in range(w, len(tasks), workers):
+                        name, desc, body, bounds = tasks[idx]
+                        n_inc = len(self.inconclusive)
+                        n_log = len(self.logs)
+                        self.fns_used = {}
+                        self.contracts_used = {}
+                        try:
+                            ob, ex = self.explore(name, desc, body, bounds=bounds)
+                            viol = []
+                            for lab, mdl, info in ex.violations:
+                                try:
+                                    pickle.dumps(info)
+                                except Exception:
+                                    info = dict(unpicklable=repr(info)[:2000])
+                                viol.append((lab, None, info))
+                        except Exception as e:           # an internal error in one exploration must not be lost
+                            import traceback
+                            ob = Obligation(name, desc)
+                            ob.status = 'inconclusive: internal error in the checker: %s' % (traceback.format_exc()[-1500:],)
+                            viol = []
+                            self.inconclusive.append('%s: internal error in the checker (%s)' % (name, e))
+                        res.append(dict(idx=idx, ob=ob, viol=viol, inconclusive=self.inconclusive[n_inc:], logs=self.logs[n_log:],
+                                        fns_used=self.fns_used, contracts_used=self.contracts_used))
+                    with open(os.path.join(tmpdir, '%d.pkl' % w), 'wb') as f:
+                        pickle.dump(res, f)
+                except BaseException:
+                    import traceback
+                    traceback.print_exc()
+                    code = 3
+                finally:
+                    sys.stdout.flush()
+                    sys.stderr.flush()
+                    os._exit(code)
+            pids.append(pid)
+        failed = False
+        for pid in pids:
+            _, st = os.waitpid(pid, 0)
+            if st != 0:
+                failed = True
+        results = {}
+        for w in range(workers):
+            fp = os.path.join(tmpdir, '%d.pkl' % w)
+            if os.path.exists(fp):
+                for r in pickle.load(open(fp, 'rb')):
+                    results[r['idx']] = r
+        subprocess.run(['rm', '-rf', tmpdir])
+        out = []
+        for idx, (name, desc, body, bounds) in enumerate(tasks):
+            r = results.get(idx)
+            if r is None:
+                ob = Obligation(name, desc)
+                ob.status = 'inconclusive: worker process died'
+                self.obls.append(ob)
+                self.inconclusive.append('%s: worker process died (out of memory?)' % name)
+                out.append((ob, []))
+                continue
+            self.obls.append(r['ob'])
+            self.inconclusive += r['inconclusive']
+            self.logs += r['logs']
+            for k, v in r['fns_used'].items():
+                self.fns_used[k] = v
+            for k, v in r['contracts_used'].items():
+                self.contracts_used[k] = self.contracts_used.get(k, 0) + v
+            out.append((r['ob'], r['viol']))
+        if failed and not any(o.status.startswith('inconclusive') for o, _ in out):
+            self.inconclusive.append('a worker process of a batch ended abnormally')
+        return out
+
     def require_witness(self, ob, labels):
         for l in labels:
             if l not in ob.witnesses:
